@@ -3,12 +3,12 @@ from symx.api import And, Iff, Implies, Instance, Ite, Not, Or, ssum
 
 META = {
     "bounds": {
-        "state": "inductive step: edit text of length L <= 2 (quick) / 3 (thorough) over all Unicode scalar values (newline, space, wide, zero-width arise as solver choices), "
+        "state": "inductive step: edit text of length L <= 2 over all Unicode scalar values (newline, space, wide, zero-width arise as solver choices), "
                  "cursor offset anywhere in [0, L] (enumerated), caption from {'', 'ab'}; str and (ASCII/UTF-8 2-byte) bytes text",
         "keys": "one key per step: a printable character (symbolic code point), left, right, home, end, up, down, backspace, delete, enter, tab, an unused key, a click at a symbolic cell",
-        "width": "symbolic and unbounded for the text-model obligations; concretised 1..4 (quick) / 1..6 where a canvas / layout rows are materialised",
+        "width": "symbolic and unbounded for the text-model obligations; concretised 1..3 (quick) / 1..4 (thorough) where a canvas / layout rows are materialised",
     },
-    "outside": ["texts longer than 3", "highlight", "custom layouts", "masks", "right/center alignment of the edit line for the cursor-cell obligation"],
+    "outside": ["texts longer than 2 (L = 3 did not finish within the thorough budget)", "highlight", "custom layouts", "masks", "right/center alignment of the edit line for the cursor-cell obligation"],
     "stubs": ["str_util.get_char_width -> uninterpreted W", "CanvasCache disabled"],
     "assumptions": ["representation invariant of Edit (DESIGN section 5): 0 <= edit_pos <= len(text), pref_col_maxcol == (None, None)"],
 }
@@ -19,7 +19,7 @@ KEYS = ["char", "left", "right", "home", "end", "up", "down", "backspace", "dele
 def instances(tier):
     q = tier == "quick"
     out = []
-    for L in ((0, 1, 2) if q else (0, 1, 2, 3)):
+    for L in (0, 1, 2):
         for key in KEYS:
             for cfg in (("space", False, False, ""), ("any", True, True, "ab"), ("clip", True, False, "")):
                 wrap, multiline, allow_tab, caption = cfg
@@ -29,11 +29,11 @@ def instances(tier):
                 if q and L == 1 and key == "click" and cfg[0] != "any":
                     continue
                 out.append(Instance("edit.%s.%s.L%d.%s" % (wrap, "cap" if caption else "nocap", L, key), "h_edit",
-                                    {"L": L, "key": key, "wrap": wrap, "multiline": multiline, "allow_tab": allow_tab, "caption": caption, "maxw": 3 if q else 5}, timeout=600 if q else 2400))
+                                    {"L": L, "key": key, "wrap": wrap, "multiline": multiline, "allow_tab": allow_tab, "caption": caption, "maxw": 3 if q else 4}, timeout=600 if q else 2400))
                 # the same step from a state that remembers a preferred column (after an earlier vertical move)
                 if key in ("char", "backspace", "delete", "left", "right", "up", "down", "enter") and (not q or (L == 1 and cfg[0] != "clip")):
                     out.append(Instance("edit.%s.%s.L%d.%s.pref" % (wrap, "cap" if caption else "nocap", L, key), "h_edit",
-                                        {"L": L, "key": key, "wrap": wrap, "multiline": multiline, "allow_tab": allow_tab, "caption": caption, "maxw": 3 if q else 5, "pref": True}, timeout=600 if q else 2400))
+                                        {"L": L, "key": key, "wrap": wrap, "multiline": multiline, "allow_tab": allow_tab, "caption": caption, "maxw": 3 if q else 4, "pref": True}, timeout=600 if q else 2400))
     for L in (0, 1, 2):
         for key in ("char", "backspace", "delete", "left"):
             out.append(Instance("bytes.L%d.%s" % (L, key), "h_edit_bytes", {"L": L, "key": key}, timeout=600))
